@@ -784,7 +784,7 @@ func (m *Model) proj(sel string, sort Sort, x *Term, i int) *Term {
 func (m *Model) SliceWF(s *Term) *Term {
 	tb := m.tb
 	z := m.IxConst(0)
-	lim := m.IxConst(1 << 62)
+	lim := m.IxConst(1 << 60)
 	return tb.And(m.IxLe(z, m.SliceOff(s)), m.IxLe(z, m.SliceLen(s)), m.IxLe(m.SliceLen(s), m.SliceCap(s)),
 		m.IxLt(m.IxAdd(m.SliceOff(s), m.SliceCap(s)), lim), m.IxLt(m.SliceOff(s), lim), m.IxLt(m.SliceCap(s), lim),
 		tb.Le(tb.Int(0), m.SliceRef(s)),
@@ -805,7 +805,7 @@ func (m *Model) SeqAt(q, i *Term) *Term {
 }
 func (m *Model) SeqWF(q *Term) *Term {
 	z := m.IxConst(0)
-	lim := m.IxConst(1 << 62)
+	lim := m.IxConst(1 << 60)
 	return m.tb.And(m.IxLe(z, m.SeqOff(q)), m.IxLe(z, m.SeqLen(q)), m.IxLt(m.SeqOff(q), lim), m.IxLt(m.SeqLen(q), lim))
 }
 
